@@ -30,6 +30,9 @@ Why(c) ==
     [] c.kind = "varint" -> WhyVarint(c)
     [] c.kind = "varstr" -> (IF c.enc = VarintBN(FromInt(Len(c.s))) \o c.s /\ c.back = c.s THEN "" ELSE "varstr")
     [] c.kind = "fixed" -> WhyFixed(c)
+    [] c.kind = "fixed-overflow" -> (IF Len(Strip(c.n)) <= c.w THEN "harness:value-fits"           \* the value needs more than w bytes
+                                     ELSE IF c.le_ok THEN "int_to_little_endian-wraps-a-value-that-does-not-fit"
+                                     ELSE IF c.be_ok THEN "int_to_big_endian-wraps-a-value-that-does-not-fit" ELSE "")
     [] c.kind = "version" -> (IF c.bytes = VersionMsg(c.m) THEN "" ELSE "version-layout")
     [] c.kind = "getheaders" -> (IF c.bytes = GetHeadersMsg(c.m) THEN "" ELSE "getheaders-layout")
     [] c.kind = "getdata" -> (IF c.bytes = GetDataMsg(c.m) THEN "" ELSE "getdata-layout")
